@@ -499,6 +499,88 @@ fn exhaustive_rw(ctx: &Ctx) {
     }
 }
 
+/// Three threads, one operation each: every placement of <= 2 forced preemptions, each with every
+/// choice of the thread switched to.
+fn exhaustive3<K: Copy + Serialize + PartialEq + std::hash::Hash>(
+    ctx: &Ctx,
+    name: &str,
+    ops: &[(K, u8)],
+    mk_run: &dyn Fn(&Vec<Vec<(K, u8)>>, Sched) -> (Box<dyn Serialize3>, Result<ExecSummary, Failure>),
+) {
+    let mut progs = Vec::new();
+    for a in ops {
+        for b in ops {
+            for c in ops {
+                progs.push(vec![vec![*a], vec![*b], vec![*c]]);
+            }
+        }
+    }
+    let mut idx = 0usize;
+    let mut total = 0u64;
+    let mut ok = true;
+    'outer: for prog in &progs {
+        let mine = idx % ctx.nworkers as usize == ctx.worker as usize;
+        idx += 1;
+        if !mine {
+            continue;
+        }
+        let mut horizon = 8u32;
+        let mut s1 = 0u32;
+        while s1 <= horizon {
+            let mut s2 = s1;
+            loop {
+                let single = s2 == s1;
+                for t1 in 0u8..3 {
+                    for t2 in 0u8..if single { 1 } else { 3 } {
+                        let pts = if single { vec![(s1, t1)] } else { vec![(s1, t1), (s2, t2)] };
+                        let sched = Sched::Preempt(pts);
+                        let (case, res) = mk_run(prog, sched.clone());
+                        let mut steps = 0;
+                        ok = ctx.run_one(name, &case.as_value(), || {
+                            let s = res?;
+                            steps = s.stats.steps;
+                            let mut rep = CaseReport::new();
+                            classify(&mut rep, &s, &sched);
+                            rep.distinct_key = Some(vh::runner::hash_of(&(s.trace_hash, prog)));
+                            Ok(rep)
+                        });
+                        total += 1;
+                        if !ok {
+                            break 'outer;
+                        }
+                        if steps + 1 > horizon {
+                            horizon = steps + 1;
+                        }
+                    }
+                }
+                s2 += 1;
+                if s2 > horizon {
+                    break;
+                }
+            }
+            s1 += 1;
+        }
+    }
+    if ok {
+        ctx.note_exhaustive(format!("{name}: every placement of <=2 forced preemptions x every switch target for all {} three-thread programs with one operation per thread; {} executions on this worker", progs.len(), total));
+    }
+}
+
+/// object-safe "serialise to a JSON value" for the two case types
+pub trait Serialize3 {
+    fn as_value(&self) -> serde_json::Value;
+}
+impl Serialize3 for MutexCase {
+    fn as_value(&self) -> serde_json::Value {
+        serde_json::to_value(self).unwrap()
+    }
+}
+impl Serialize3 for RwCase {
+    fn as_value(&self) -> serde_json::Value {
+        serde_json::to_value(self).unwrap()
+    }
+}
+
 fn main() {
     vh::runner::main_for(|ctx| match ctx.prop.as_str() {
         "C01" => {
@@ -506,8 +588,18 @@ fn main() {
                 if let Some(c) = ctx.replay_case::<MutexCase>("mutex-exh2") {
                     ctx.run_one("mutex-exh2", &c, || check_mutex(&c));
                 }
+                if let Some(c) = ctx.replay_case::<MutexCase>("mutex-exh3") {
+                    ctx.run_one("mutex-exh3", &c, || check_mutex(&c));
+                }
             } else {
                 exhaustive_mutex(ctx);
+                {
+                    exhaustive3(ctx, "mutex-exh3", &[(MKind::Lock, 0u8), (MKind::Lock, 1), (MKind::TryLock, 0)], &|prog, sched| {
+                        let case = MutexCase { prog: prog.clone(), sched, events: Events::default() };
+                        let r = run_mutex(&case);
+                        (Box::new(case), r)
+                    });
+                }
             }
             ctx.run_prop("mutex", ctx.cases(40_000, 1_500_000), mutex_case(), check_mutex);
             real::run_mutex(ctx);
@@ -517,8 +609,18 @@ fn main() {
                 if let Some(c) = ctx.replay_case::<RwCase>("rw-exh2") {
                     ctx.run_one("rw-exh2", &c, || check_rw(&c));
                 }
+                if let Some(c) = ctx.replay_case::<RwCase>("rw-exh3") {
+                    ctx.run_one("rw-exh3", &c, || check_rw(&c));
+                }
             } else {
                 exhaustive_rw(ctx);
+                {
+                    exhaustive3(ctx, "rw-exh3", &[(RKind::Read, 0u8), (RKind::Write, 0), (RKind::TryWrite, 0), (RKind::TryRead, 0)], &|prog, sched| {
+                        let case = RwCase { prog: prog.clone(), sched, events: Events::default() };
+                        let r = run_rw(&case);
+                        (Box::new(case), r)
+                    });
+                }
             }
             ctx.run_prop("rwlock", ctx.cases(40_000, 1_500_000), rw_case(), check_rw);
             real::run_rwlock(ctx);
